@@ -352,7 +352,7 @@ func RunC02(c *Ctx) {
 		}
 		seekTable(c, r, props, idx, t, data, rd)
 		closer()
-		if idx%8 == 2 {
+		if idx%4 == 2 {
 			flakySourceSweep(c, idx, t, data)
 		}
 	}
@@ -376,89 +376,110 @@ func (f *flakySource) ReadBlock(off uint64, size int) ([]byte, error) {
 	return f.ByteBlockSource.ReadBlock(off, size)
 }
 
-// flakySourceSweep: every read of the block source fails once in turn while the table is
-// opened, scanned and sought. Each answer must be an error or exactly the answer of the
-// undisturbed table: a read error never turns into a silently shorter or different result
-// (a compaction reading its inputs would otherwise drop records without noticing).
+// flakySourceSweep: for every query (full ref scan, full log scan, SeekRef and SeekLog at
+// up to 300 record keys) and every ReadBlock the query issues on an already opened reader,
+// that one read fails (all reads of a seek; at most 40 evenly spread reads of a scan). The
+// answer must be an error or exactly the answer of the undisturbed table: a read error
+// never turns into a silently shorter or different result (a compaction reading its
+// inputs would otherwise drop records without noticing), and the reader must not panic.
+// Opening the table with each of its reads failing must fail (or give a working reader).
 func flakySourceSweep(c *Ctx, idx int, t *gen.Table, data []byte) {
 	r := c.Rep
 	wantRefs, wantLogs := t.Expected()
-	var keys []string
-	for i := 0; i < len(wantRefs); i += 1 + len(wantRefs)/6 {
-		keys = append(keys, wantRefs[i].Name)
-	}
 	type q struct {
 		kind, key string
 	}
 	qs := []q{{"scanrefs", ""}, {"scanlogs", ""}}
-	for _, k := range keys {
-		qs = append(qs, q{"seekref", k}, q{"seeklog", k})
+	stepR := 1 + len(wantRefs)/300
+	for i := 0; i < len(wantRefs); i += stepR {
+		qs = append(qs, q{"seekref", wantRefs[i].Name})
 	}
-	run := func(src *flakySource) (answers []string, errs []error) {
-		rd, err := reftable.NewReader(src, "flaky")
-		if err != nil {
-			return nil, []error{err}
+	stepL := 1 + len(wantLogs)/150
+	last := ""
+	for i := 0; i < len(wantLogs); i += stepL {
+		if wantLogs[i].Name != last {
+			qs = append(qs, q{"seeklog", wantLogs[i].Name})
+			last = wantLogs[i].Name
 		}
-		for _, x := range qs {
-			var out string
-			err := rtx.Safe(func() error {
-				switch x.kind {
-				case "scanrefs", "seekref":
-					it, err := rd.SeekRef(x.key)
-					if err != nil {
-						return err
-					}
-					rs, err := rtx.DrainRefs(it, 0)
-					out = gen.Dump(rs, nil)
-					return err
-				default:
-					it, err := rd.SeekLog(x.key, math.MaxUint64)
-					if err != nil {
-						return err
-					}
-					ls, err := rtx.DrainLogs(it, 0)
-					out = gen.Dump(nil, ls)
+	}
+	runQ := func(rd *reftable.Reader, x q) (string, error) {
+		var out string
+		err := rtx.Safe(func() error {
+			switch x.kind {
+			case "scanrefs", "seekref":
+				it, err := rd.SeekRef(x.key)
+				if err != nil {
 					return err
 				}
-			})
-			answers = append(answers, out)
-			errs = append(errs, err)
-		}
-		return
+				limit := 0
+				if x.kind == "seekref" {
+					limit = 3
+				}
+				rs, err := rtx.DrainRefs(it, limit)
+				out = gen.Dump(rs, nil)
+				return err
+			default:
+				it, err := rd.SeekLog(x.key, math.MaxUint64)
+				if err != nil {
+					return err
+				}
+				limit := 0
+				if x.kind == "seeklog" {
+					limit = 3
+				}
+				ls, err := rtx.DrainLogs(it, limit)
+				out = gen.Dump(nil, ls)
+				return err
+			}
+		})
+		return out, err
 	}
-	base := &flakySource{ByteBlockSource: reftable.ByteBlockSource{Source: data}}
-	want, werrs := run(base)
-	for _, e := range werrs {
-		if e != nil {
+	open := func() (*reftable.Reader, *flakySource) {
+		src := &flakySource{ByteBlockSource: reftable.ByteBlockSource{Source: data}}
+		rd, err := reftable.NewReader(src, "flaky")
+		if err != nil {
+			return nil, nil
+		}
+		return rd, src
+	}
+	for _, x := range qs {
+		rd, src := open()
+		if rd == nil {
+			return
+		}
+		src.reads = 0
+		want, err := runQ(rd, x)
+		if err != nil {
 			return // the undisturbed table is judged by the main part of the check
 		}
-	}
-	_ = wantLogs
-	step := 1 + base.reads/30
-	for k := 1; k <= base.reads; k += step {
-		src := &flakySource{ByteBlockSource: reftable.ByteBlockSource{Source: data}, failAt: k}
-		got, errs := run(src)
-		r.Evaluations++
-		r.Count("reader_runs_with_failing_read", 1)
-		if !src.failed {
-			continue
+		nreads := src.reads
+		step := 1
+		if x.kind == "scanrefs" || x.kind == "scanlogs" {
+			step = 1 + nreads/40
 		}
-		sawErr := false
-		for i := range errs {
-			cs := mkCase(c, "GenSeekTable", idx, t, fmt.Sprintf("ReadBlock #%d of %d fails", k, base.reads))
-			switch {
-			case errs[i] != nil && rtx.IsPanic(errs[i]):
-				r.Violate([]string{"C02"}, "reader-panics-after-failed-read|"+PanicSig(errs[i]), fmt.Sprintf("ReadBlock #%d of %d failed: %s %q panicked: %s", k, base.reads, qs[i].kind, qs[i].key, PanicDetail(errs[i])), cs)
-				return
-			case errs[i] != nil:
-				sawErr = true
-			case len(got) == len(want) && got[i] != want[i]:
-				r.Violate([]string{"C02"}, "read-error-turned-into-wrong-answer|"+qs[i].kind, fmt.Sprintf("ReadBlock #%d of %d failed, %s %q returned no error but a different answer than the undisturbed table: %s", k, base.reads, qs[i].kind, qs[i].key, gen.DiffLines(want[i], got[i])), cs)
+		for k := 1; k <= nreads; k += step {
+			rd, src := open()
+			if rd == nil {
 				return
 			}
-		}
-		if sawErr {
-			r.Nontrivial(rep.Hash("flakyread", fmt.Sprint(c.Seed), fmt.Sprint(idx), fmt.Sprint(k)))
+			src.reads, src.failAt = 0, k
+			got, err := runQ(rd, x)
+			r.Evaluations++
+			r.Count("reader_queries_with_failing_read", 1)
+			if !src.failed {
+				continue
+			}
+			cs := mkCase(c, "GenSeekTable", idx, t, fmt.Sprintf("%s %q: ReadBlock #%d of %d fails", x.kind, x.key, k, nreads))
+			switch {
+			case err != nil && rtx.IsPanic(err):
+				r.Violate([]string{"C02"}, "reader-panics-after-failed-read|"+PanicSig(err), fmt.Sprintf("%s %q with its ReadBlock #%d of %d failing panicked: %s", x.kind, x.key, k, nreads, PanicDetail(err)), cs)
+				return
+			case err != nil:
+				r.Nontrivial(rep.Hash("flakyread", fmt.Sprint(c.Seed), fmt.Sprint(idx), x.kind, x.key, fmt.Sprint(k)))
+			case got != want:
+				r.Violate([]string{"C02"}, "read-error-turned-into-wrong-answer|"+x.kind, fmt.Sprintf("%s %q with its ReadBlock #%d of %d failing returned no error but a different answer than the undisturbed table: %s", x.kind, x.key, k, nreads, gen.DiffLines(want, got)), cs)
+				return
+			}
 		}
 	}
 }
